@@ -193,6 +193,43 @@ pub fn gen(seed: u64, n: usize, _tier: &str) -> Vec<Case> {
             }
         }
     }
+    // (c) a stream key with a TTL: every stream command before and after the deadline (sweeper paused),
+    // then a sweeper pass.  The engine's x* functions do not test expiry (class no-lazy-expiry);
+    // the consumer-group commands go through storage.get and remove the expired key.
+    let scmds: Vec<Vec<Vec<u8>>> = {
+        let v = |a: &[&[u8]]| -> Vec<Vec<u8>> { a.iter().map(|x| x.to_vec()).collect() };
+        vec![v(&[b"XADD", b"sx", b"6-0", b"f", b"w"]), v(&[b"XADD", b"sx", b"*", b"f", b"w"]), v(&[b"XADD", b"sx", b"1-0", b"f", b"w"]),
+             v(&[b"XLEN", b"sx"]), v(&[b"XRANGE", b"sx", b"-", b"+"]), v(&[b"XREAD", b"STREAMS", b"sx", b"0"]),
+             v(&[b"XTRIM", b"sx", b"MAXLEN", b"0"]), v(&[b"XDEL", b"sx", b"5-0"]),
+             v(&[b"XGROUP", b"CREATE", b"sx", b"g2", b"0"]), v(&[b"XGROUP", b"CREATE", b"sx", b"g2", b"$", b"MKSTREAM"]),
+             v(&[b"XREADGROUP", b"GROUP", b"g", b"c2", b"STREAMS", b"sx", b">"]), v(&[b"XACK", b"sx", b"g", b"5-0"]),
+             v(&[b"XCLAIM", b"sx", b"g", b"c2", b"0", b"5-0"]), v(&[b"XPENDING", b"sx", b"g"]), v(&[b"XINFO", b"STREAM", b"sx"]),
+             v(&[b"XINFO", b"GROUPS", b"sx"]), v(&[b"TYPE", b"sx"]), v(&[b"EXISTS", b"sx"]), v(&[b"PERSIST", b"sx"]), v(&[b"PEXPIRE", b"sx", b"100000"]),
+             v(&[b"RENAME", b"sx", b"k2"]), v(&[b"DEL", b"sx"])]
+    };
+    let sdump = |ops: &mut Vec<Vec<Tok>>| {
+        ops.push(cmd_op(1, &[b"VERIF", b"INDEX", b"0"]));
+        for k in [&b"sx"[..], b"k2"] { ops.push(cmd_op(1, &[b"EXISTS", k])); ops.push(cmd_op(1, &[b"PTTL", k])); ops.push(cmd_op(1, &[b"TYPE", k])); }
+        ops.push(cmd_op(1, &[b"XLEN", b"sx"])); ops.push(cmd_op(1, &[b"XRANGE", b"sx", b"-", b"+"]));
+        ops.push(cmd_op(1, &[b"DBSIZE"]));
+    };
+    for sc in &scmds {
+        for late in 0..2 {
+            let mut ops = vec![conn_op(1), cmd_op(1, &[b"VERIF", b"SWEEP", b"PAUSE"])];
+            ops.push(cmd_op(1, &[b"XADD", b"sx", b"5-0", b"f", b"v"]));
+            ops.push(cmd_op(1, &[b"XGROUP", b"CREATE", b"sx", b"g", b"0"]));
+            ops.push(cmd_op(1, &[b"XREADGROUP", b"GROUP", b"g", b"c1", b"STREAMS", b"sx", b">"]));
+            ops.push(cmd_op(1, &[if late == 1 { &b"PEXPIRE"[..] } else { b"EXPIRE" }, b"sx", if late == 1 { &b"200"[..] } else { b"100" }]));
+            ops.push(cmd_op(1, &[b"PTTL", b"sx"]));
+            ops.push(sleep_op(300));
+            push(&mut ops, 1, sc);                 // late = 1: the deadline has passed, the sweeper has not run
+            ops.push(cmd_op(1, &[b"XADD", b"sx", b"7-0", b"f", b"x"]));
+            sdump(&mut ops);
+            ops.push(sweep_op());
+            sdump(&mut ops);
+            cases.push(Case { id: format!("stream-{}", id), ops, outs: vec![] }); id += 1;
+        }
+    }
     cases
 }
 /// As srv::run_case, but a history whose real time ran more than 80 ms ahead of the logical clock is
